@@ -183,6 +183,10 @@ pub fn build_world(root: &Path, world: &World, privileged: bool) -> Result<(), S
 
 static RUN_COUNTER: AtomicU64 = AtomicU64::new(0);
 
+/// Wall-clock limit of one simulated execution. It must never be the first limit an execution meets: the step budget
+/// (deterministic) is, also on a machine that is several times oversubscribed - 200 000 steps take a few seconds.
+pub const WALL_CLOCK_BACKSTOP_S: u32 = 180;
+
 pub fn scratch_base() -> PathBuf {
     if Path::new("/dev/shm").is_dir() {
         PathBuf::from("/dev/shm")
@@ -325,7 +329,7 @@ impl Executor {
 
         // "@ROOT@" in an argument stands for the absolute path of this execution's world
         let argv: Vec<String> = scenario.argv.iter().map(|a| a.replace("@ROOT@", &sim.root)).collect();
-        let mut cmd = launch(&self.launcher, &self.simhost, &argv, if privileged { Some(UNPRIVILEGED) } else { None }, 20, 4 << 30, true);
+        let mut cmd = launch(&self.launcher, &self.simhost, &argv, if privileged { Some(UNPRIVILEGED) } else { None }, WALL_CLOCK_BACKSTOP_S, 4 << 30, true);
         cmd.current_dir(&cwd)
             .env_clear()
             .env("SIM_SCENARIO", &sc_path)
@@ -342,6 +346,14 @@ impl Executor {
             None => Exit::Signal(out.status.signal().unwrap_or(0)),
         };
         let raw = std::fs::read(&trace_path).unwrap_or_default();
+        if let Some(d) = std::env::var_os("VERIF_DUMP_TRACE") {
+            // debugging aid: keep a copy of every raw trace and of both output streams
+            let base = Path::new(&d).join(dir.file_name().unwrap_or_default());
+            let _ = std::fs::create_dir_all(&base);
+            let _ = std::fs::write(base.join("trace"), &raw);
+            let _ = std::fs::write(base.join("stdout"), &out.stdout);
+            let _ = std::fs::write(base.join("stderr"), &out.stderr);
+        }
         let mut digest = refcodec::util::Fnv::default();
         let mut trace = Vec::new();
         let mut garbled = false;
